@@ -8,7 +8,7 @@ from typing import Any
 from ..absint import AObj, AbsRaise, Interp
 from ..antlrstubs import Console, install_antlr
 from ..codec import PATH, run_reader, run_writer
-from ..core import AnalysisError, Ctx, loc
+from ..core import AnalysisError, Ctx, is_library_error, loc
 from ..iostubs import VFS
 from ..logic import names_of
 from ..model import ModelBuilder, rich_model
@@ -176,7 +176,7 @@ def check(pm: ProgramModel, ctx: Ctx) -> None:
                 r = run_reader(pm, reader, vfs, setup=both)
                 executed |= r["interp"].sites
                 if r["raise"]:
-                    if label in MAY_BE_REJECTED and r["raise"][0].startswith(("FlamaException", "ParsingException")):
+                    if label in MAY_BE_REJECTED and is_library_error(pm, r["raise"][0]):
                         # a degenerate document: "whatever document a reader accepts" - it need not accept this one,
                         # but then with the library's own error
                         ctx.ok("C02-READS", f"{reader}:{label}", where, f"degenerate document reported as a library error")
